@@ -110,7 +110,12 @@ theorem step_stamps {s : KState} {a : AG} (h : Refines s a) (op : Op) :
   | addGraph g =>
     unfold step specStep
     by_cases hv : validName g = true
-    · simp [hv, KState.touch, AG.touch, h.stamps, h.clock]
+    · -- the sweep leaves stamps and clock alone
+      have hs : (if hasGraph s g = true then s else sweepGraph s g).stamps = s.stamps := by
+        split <;> rfl
+      have hc : (if hasGraph s g = true then s else sweepGraph s g).clock = s.clock := by
+        split <;> rfl
+      simp [hv, KState.touch, AG.touch, hs, hc, h.stamps, h.clock]
     · simp only [Bool.not_eq_true] at hv; simp [hv, h.stamps, h.clock]
   | delGraph g =>
     rw [step_delGraph]; unfold specStep
